@@ -102,6 +102,11 @@ type Stream struct {
 	// carrying on would hand the tail of the interrupted message to the
 	// application as if it were a message of its own.
 	recvRejected error
+
+	// sendMidMessage is true while the last frame that went out was a partial
+	// (not final) frame: an outbound message is half sent even when nothing is
+	// buffered any more.
+	sendMidMessage bool
 }
 
 // CEDAR protocol constants based on HTCondor's reli_sock.cpp
@@ -290,6 +295,7 @@ func (s *Stream) sendMessageWithEnd(ctx context.Context, data []byte, end byte) 
 	if err := s.writeWithContext(ctx, frame); err != nil {
 		return fmt.Errorf("failed to write frame: %w", err)
 	}
+	s.sendMidMessage = end == EndFlagPartial
 
 	return nil
 }
@@ -852,6 +858,9 @@ func (s *Stream) ExportCryptoState() ([]byte, error) {
 	}
 	if s.sendEOM {
 		return nil, fmt.Errorf("ExportCryptoState: not at a clean boundary (sendEOM set: outbound message end-of-message pending StartMessage)")
+	}
+	if s.sendMidMessage {
+		return nil, fmt.Errorf("ExportCryptoState: not at a clean boundary (a partial frame of an outbound message was sent and the message is not finished)")
 	}
 
 	var flags byte
